@@ -8,13 +8,15 @@ Translated on every run.  Shape accepted (anything else fails closed):
         elif C2: ftype = E2
         ...
         else: break
+    [<name> = <expression>]*          # optional plain assignments
     return <boolean expression>
 
 The loop becomes PyK_c08.k_iter with fuel = 1 + nesting depth of the type term (every accepted
 rebinding must take a component of the value; the theorem K17_nullable fails if that is not so).
 Abstractions (types are encoded as kernel values, see PyK_c08.v):
-  is_annotated(t) / is_final(t) / is_union(t) / is_optional(t, ...) / is_type_var_any(self.get_real_type(fname, t))
-  -> tag tests; get_type_origin(t) -> ty_origin; get_args(t) -> ty_args;
+  is_annotated(t) / is_final(t) / is_union(t) / is_optional(t, ...) / is_type_var_any(t)
+  -> tag tests; get_type_origin(t) -> ty_origin; get_args(t) -> ty_args; self.get_real_type(fname, t) -> ty_real t
+  (a type variable bound by the specialisation is replaced by its binding);
   typing.Any / type(None) -> ty_any / ty_nonetype; self.get_field_default(fname) -> a_default.
 The abstraction of is_optional as "a union of exactly two members one of which is None" is only used
 while its source text is the expected one."""
@@ -42,7 +44,21 @@ EXPECTED_IS_OPTIONAL = '''def is_optional(typ: Type, resolved_type_params: Optio
     return False'''
 
 
+# (not in /repo yet: fixes/C08-typevar-bound-nullable.diff) what a variable nobody binds is packed as
+EXPECTED_TYPE_VAR_MEANING = '''def get_type_var_meaning(typ: Type) -> Type:
+    if not is_type_var(typ) or is_type_var_any(typ):
+        return typ
+    constraints = getattr(typ, '__constraints__')
+    if constraints:
+        return Union[constraints]
+    if type_var_has_default(typ):
+        return get_type_var_default(typ)
+    return getattr(typ, '__bound__')'''
+
+
 class K17Translator(FnTranslator):
+    helpers = None
+
     def expr(self, e):
         key = ast.unparse(e)
         if key == "typing.Any":
@@ -83,10 +99,20 @@ class K17Translator(FnTranslator):
         if f == "is_optional" and len(e.args) == 2 and ast.unparse(e.args[1]) == "self.get_field_resolved_type_params(fname)":
             pre, a = self.expr(e.args[0])
             return pre, f"(KBool (ty_is_optional {a}))"
-        if f == "is_type_var_any" and len(e.args) == 1 and isinstance(e.args[0], ast.Call) \
-                and ast.unparse(e.args[0].func) == "self.get_real_type" and len(e.args[0].args) == 2 \
-                and ast.unparse(e.args[0].args[0]) == "fname":
-            pre, a = self.expr(e.args[0].args[1])
+        if f == "self.get_real_type" and len(e.args) == 2 and ast.unparse(e.args[0]) == "fname":
+            # substitution of the specialisation's type parameters: a variable the specialisation binds
+            # (KTuple ["TypeVar"; t]) becomes t, everything else (incl. a variable left unbound) stays (PyK_c08.ty_real)
+            pre, a = self.expr(e.args[1])
+            return pre, f"(ty_real {a})"
+        if f == "get_type_var_meaning" and len(e.args) == 1:
+            # abstraction: the bounded variable left unbound (KTuple ["TypeVarBound"; t]) becomes its bound t, everything else
+            # stays (PyK_c08.ty_unbound); only while the helper's source text is the expected one
+            if self.helpers is None or ast.unparse(find_function(self.helpers, "get_type_var_meaning")) != EXPECTED_TYPE_VAR_MEANING:
+                raise Unsupported("helpers.get_type_var_meaning: unexpected source text")
+            pre, a = self.expr(e.args[0])
+            return pre, f"(ty_unbound {a})"
+        if f == "is_type_var_any" and len(e.args) == 1:
+            pre, a = self.expr(e.args[0])
             return pre, f"(KBool (ty_is_typevar_any {a}))"
         return super().call(e)
 
@@ -101,13 +127,19 @@ def gen() -> str:
     if [a.arg for a in fn.args.args] != ["self", "fname", "ftype"]:
         raise Unsupported("is_field_nullable parameters")
     body = [s for s in fn.body if not (isinstance(s, ast.Expr) and isinstance(s.value, ast.Constant))]
-    if len(body) != 2 or not isinstance(body[0], ast.While) or not isinstance(body[1], ast.Return):
-        raise Unsupported("is_field_nullable is not `while True: ...; return ...`")
+    if len(body) < 2 or not isinstance(body[0], ast.While) or not isinstance(body[-1], ast.Return):
+        raise Unsupported("is_field_nullable is not `while True: ...; [assignments;] return ...`")
+    middle = body[1:-1]
+    for st in middle:       # plain assignments of new local names between the loop and the return
+        if not (isinstance(st, ast.Assign) and len(st.targets) == 1 and isinstance(st.targets[0], ast.Name)
+                and st.targets[0].id not in ("ftype", "fname", "self")):
+            raise Unsupported(f"statement between loop and return: {ast.unparse(st)[:60]}")
     loop = body[0]
     if not (isinstance(loop.test, ast.Constant) and loop.test.value is True) or loop.orelse or len(loop.body) != 1:
         raise Unsupported("loop shape")
     k = Kernel(func="is_field_nullable", coq_name="is_field_nullable", params=["a_default", "v_ftype"])
     tr = K17Translator(k, module)
+    tr.helpers = helpers
     tr.locals.add("ftype")
     # the if / elif chain: every branch rebinds ftype, the final else breaks
     node = loop.body[0]
@@ -130,7 +162,7 @@ def gen() -> str:
         pc, c = tr.expr(test)
         pv, v = tr.expr(value)
         step = tr.wrap(pc, f"(if k_truthy {c} then {tr.wrap(pv, f'Ok (Some {v})')} else {step})")
-    ret = tr.mexpr(body[1].value)
+    ret = tr.block(list(middle) + [body[-1]], None)
     text = HEADER.format(src="mashumaro/core/meta/code/builder.py (CodeBuilder.is_field_nullable)")
     text = text.replace("From Verif Require Import Regex PyK.", "From Verif Require Import Regex PyK PyK_c08.")
     text += f"Definition is_field_nullable_step (v_ftype: kv) : res (option kv) :=\n  {step}.\n\n"
